@@ -173,8 +173,15 @@ def gen(seed: int, i: int, tier: str) -> dict:
             v["children"] = {str(c): {"type": ch["type"], "desc": ch["desc"],
                                       "values": {str(t): x for t, x in ch["values"].items()}}
                              for c, ch in v["children"].items()}
-    return {"kind": kind, "hex": content.hex(), "fault": fault, "registry": registry,
-            "read_limit": rng.choice([None, None, 1, 9])}
+    scn = {"kind": kind, "hex": content.hex(), "fault": fault, "registry": registry,
+           "read_limit": rng.choice([None, None, 1, 9])}
+    if fault is None and kind not in ("missing_file", "valid_image") and rng.random() < 0.2:
+        # the disk is full / read-only while the damaged file is loaded: whatever the loader does BESIDES reading
+        # (a copy of the broken file, a repaired file, a lock file ...) fails.  On the unchanged tree no such
+        # operation exists and the fault never fires.
+        scn["late_fault"] = rng.choice([["open", [0, "ENOSPC"]], ["open", [0, "EACCES"]], ["write", ["ENOSPC"]],
+                                        ["write", ["EIO"]]])
+    return scn
 
 
 def run(scn) -> RunResult:
@@ -189,6 +196,9 @@ def run(scn) -> RunResult:
                 pw.disk.files[PATH] = bytearray(content)
             if scn.get("fault"):
                 pw.disk.fault_on[scn["fault"][0]] = [scn["fault"][1]]
+            if scn.get("late_fault"):
+                pw.disk.fault_on[scn["late_fault"][0]] = list(scn["late_fault"][1])
+                res.probes["late_device_fault_armed"] += 1
             pw.disk.read_limit = scn.get("read_limit")
             nodes = build_nodes(scn.get("registry") or {})
             before = snapshot(nodes)
@@ -199,8 +209,12 @@ def run(scn) -> RunResult:
                 res.probes["outcome_ok"] += 1
             elif outcome == "err" and isinstance(val, PersistenceReadError):
                 res.probes["outcome_read_error"] += 1
+            elif outcome == "err" and scn.get("late_fault") and type(val).__name__ == "PersistenceWriteError":
+                # a write the loader chose to do hit the injected write-side fault and was reported as the library's
+                # write error: outside this property's statement (it speaks about what the file contains)
+                res.probes["outcome_write_error_under_late_fault"] += 1
             elif outcome == "err":
-                shape = kind
+                shape = kind + (":late-" + scn["late_fault"][0] + "-fault" if scn.get("late_fault") else "")
                 res.violate(PROP, "only-persistence-read-error", f"{type(val).__name__}:{shape}",
                             f"{val!r} content={content[:200]!r}"[:500])
             else:
